@@ -65,7 +65,10 @@ PER_TEXT = {"quick": 8, "thorough": 14}
 
 RAW_SYNTAX = ["<a b c>", "(x", "<a", "</a", "<>", "< a>", "<a (b)>",
               "%bogus x", "%define", "%include", "%import", "%Define a b",
-              "% define a b", "%define 1x v", "</zz>", "</>"]
+              "% define a b", "%define 1x v", "</zz>", "</>",
+              # directive names that are pieces of the real ones
+              "%inc f", "%def a b", "%imp p", "%e x", "%port p",
+              "%fine a b", "%clude f", "%includes f", "%define_ a b"]
 BAD_DOLLAR = ["a$", "${x", "$(", "$-", "${x y}"]
 EXOTIC = ["\x0c", "\x0b", "\x85", "\u2028", "\u2029", "\x1c", "\x1d",
           "\x1e", "\r"]
@@ -842,7 +845,9 @@ def check(res, case, e, want, stage, target, kind):
 
 def run_shard(ctx):
     rng = ctx.rng("faults")
-    dirpath = os.path.join(ctx.tmp, "c08")
+    # (a directory whose name holds characters that are quoted in a URL:
+    # a file opened by a relative name gets the URL of its absolute path)
+    dirpath = os.path.join(ctx.tmp, "c08 d#1 ?q %41 \u00e9")
     for p in cc.pairs(ctx, N_MODELS[ctx.tier], TEXTS[ctx.tier],
                       fault_plan=lambda r: 0, p_bad_value=0.0,
                       augment=augment):
